@@ -319,6 +319,30 @@ def reuse_probe(run, tier, rng):
                 break
 
 
+def results_overwrite_probe(run, rng):
+    """results()['logw'] post-processed in place by the caller (a common idiom: subtract the max, exponentiate) - the next results() must
+    still give the formula's log-weights"""
+    betas, logzs, batches = gen_history(rng, 4, 6, 30.0, 5.0)
+    n0 = len(batches[0])
+    batches = [b[:n0] + [0.0] * (n0 - len(b[:n0])) for b in batches]      # equal batch sizes: results() stacks the history
+    st = build_state(betas, logzs, batches)
+    try:
+        r1 = st.compute_results()
+        ref = np.array(r1["logw"], dtype=float).copy()
+        lw = r1["logw"]
+        lw -= lw.max()
+        np.exp(lw, out=lw)
+        r2 = st.compute_results()
+    except Exception as e:
+        run.notes.append(f"results overwrite probe skipped: {type(e).__name__}: {e}")
+        return
+    run.case(key=("results-overwrite",), nontrivial=True)
+    if not np.allclose(np.asarray(r2["logw"], dtype=float), ref, rtol=0, atol=1e-12):
+        run.fail("logw-formula", f"results()['logw'] after the caller post-processed an earlier results()['logw'] in place: max deviation "
+                 f"{float(np.max(np.abs(np.asarray(r2['logw'], dtype=float) - ref))):.3g} from the log-weights returned the first time",
+                 ops=["r = results()", "r['logw'] -= max; exp in place", "results()"])
+
+
 def long_history_probe(run, T=64, n_lo=200, n_hi=2600, seed=77):
     """a LONG stored history (N*T several million entries, the sizes a long real run reaches): normalised / unnormalised log-weights
     and the evidence against an independent double evaluation of the same formula, sample by sample in row blocks"""
@@ -384,6 +408,7 @@ def main(tier, seed):
         c01.stored_evidence_probe(run, tier)
         import c05
         c05.second_run_probe(run, tier, rng)    # the weights/evidence of every step of a second run() on one Sampler
+        results_overwrite_probe(run, rng)
         long_history_probe(run)                 # 64 iterations, ~90000 samples: 5.8 million matrix entries
     except Exception:
         import traceback
